@@ -180,7 +180,8 @@ TodLits == { [k |-> "tod", pfx |-> p, h |-> h, mi |-> mi, s |-> s, f |-> f, pad 
                p \in {"TOD", "TIME_OF_DAY", "tod"}, h \in {0, 1, 23, 24}, mi \in {0, 59, 60}, s \in {0, 59, 60, 61, 255, 256, 300},
                f \in {<<>>, <<5>>, <<2, 5>>, <<9, 9, 9>>}, pd \in BOOLEAN }
 TodLong == { [k |-> "tod", pfx |-> "TOD", h |-> 10, mi |-> 11, s |-> 12, f |-> f, pad |-> TRUE] :
-               f \in {<<1, 2, 3, 4, 5, 6, 7, 8, 9>>, Rep(0, 9) \o <<5>>, <<5>> \o Rep(0, 14), <<5>> \o Rep(0, 15)} }
+               f \in {<<1, 2, 3, 4, 5, 6, 7, 8, 9>>, Rep(0, 9) \o <<5>>, <<5>> \o Rep(0, 14), <<5>> \o Rep(0, 15),
+                      <<0, 5>>, <<0, 0, 7>>, <<1, 2, 3, 4>>, <<1, 2, 3, 4, 5, 6>>, <<0, 0, 0, 0, 0, 1>>} }
 TodFields(l) == Num(l.h, IF l.pad THEN 2 ELSE 1) \o <<":">> \o Num(l.mi, IF l.pad THEN 2 ELSE 1) \o <<":">> \o Num(l.s, IF l.pad THEN 2 ELSE 1)
                 \o (IF l.f = <<>> THEN <<>> ELSE <<".">> \o Chars(l.f))
 TodSpelling(l) == <<l.pfx, "#">> \o TodFields(l)
